@@ -62,6 +62,8 @@ var (
 	c14Ops      []c14Op
 	c14FrameSet []c14Frame
 	c14Once     sync.Once
+	// the single caller-owned buffer all muxer inputs are sliced from, and its pristine copy
+	c14Arena, c14ArenaOrig []byte
 )
 
 func c14Init() { c14Once.Do(func() { c14Ops, c14FrameSet = c14Build() }) }
@@ -128,10 +130,23 @@ func c14Build() ([]c14Op, []c14Frame) {
 		{"dur50-off3,1-noblend-dispose", &mux.FrameOptions{Duration: 50, OffsetX: 3, OffsetY: 1, BlendMode: mux.BlendNone, DisposeMode: mux.DisposeBackground}},
 		{"dur2^24+1", &mux.FrameOptions{Duration: 1<<24 + 1}},
 	}
+	// Everything handed to the muxer lives in ONE caller-owned buffer, each blob directly
+	// followed by the next one and with spare capacity reaching over it (the way a caller
+	// slices frames and metadata out of a file it has read): the muxer keeps these slices by
+	// reference, and neither their contents nor the bytes behind them are its to write.
+	var place []*[]byte
+	for i := range frames {
+		// the model keeps private copies
+		frames[i].bitstream = append([]byte(nil), frames[i].bitstream...)
+		if frames[i].alpha != nil {
+			frames[i].alpha = append([]byte(nil), frames[i].alpha...)
+		}
+		place = append(place, &frames[i].data)
+	}
 	var ops []c14Op
-	for _, f := range frames {
+	for fi := range frames {
 		for _, fo := range fopts {
-			f, fo := f, fo
+			f, fo := &frames[fi], fo // by reference: data is re-sliced into the caller's buffer below
 			ops = append(ops, c14Op{"AddFrame(" + f.name + "," + fo.name + ")", func(m *mux.Muxer, md *mModel) error {
 				err := m.AddFrame(f.data, fo.o)
 				if err != nil {
@@ -184,23 +199,30 @@ func c14Build() ([]c14Op, []c14Frame) {
 		name string
 		b    []byte
 	}{{"nil", nil}, {"empty", []byte{}}, {"odd", []byte{1, 2, 3}}, {"even", []byte{9, 8, 7, 6}}}
-	for _, b := range blobs {
-		b := b
+	for bi := range blobs {
+		b := &blobs[bi]
+		mcopy := b.b // the model's private copy (nil stays nil)
+		if b.b != nil {
+			mcopy = append([]byte{}, b.b...)
+			place = append(place, &b.b)
+		}
 		ops = append(ops,
-			c14Op{"SetICCProfile(" + b.name + ")", func(m *mux.Muxer, md *mModel) error { m.SetICCProfile(b.b); md.icc = b.b; return nil }},
-			c14Op{"SetEXIF(" + b.name + ")", func(m *mux.Muxer, md *mModel) error { m.SetEXIF(b.b); md.exif = b.b; return nil }},
-			c14Op{"SetXMP(" + b.name + ")", func(m *mux.Muxer, md *mModel) error { m.SetXMP(b.b); md.xmp = b.b; return nil }})
+			c14Op{"SetICCProfile(" + b.name + ")", func(m *mux.Muxer, md *mModel) error { m.SetICCProfile(b.b); md.icc = mcopy; return nil }},
+			c14Op{"SetEXIF(" + b.name + ")", func(m *mux.Muxer, md *mModel) error { m.SetEXIF(b.b); md.exif = mcopy; return nil }},
+			c14Op{"SetXMP(" + b.name + ")", func(m *mux.Muxer, md *mModel) error { m.SetXMP(b.b); md.xmp = mcopy; return nil }})
 	}
+	chunkOdd, chunkEven := []byte{5, 5, 5}, []byte{4, 4}
+	place = append(place, &chunkOdd, &chunkEven)
 	ops = append(ops,
 		c14Op{"AddChunk(ICCP,odd)", func(m *mux.Muxer, md *mModel) error {
-			if err := m.AddChunk(mux.FourCCICCP, []byte{5, 5, 5}); err != nil {
+			if err := m.AddChunk(mux.FourCCICCP, chunkOdd); err != nil {
 				return err
 			}
 			md.icc = []byte{5, 5, 5}
 			return nil
 		}},
 		c14Op{"AddChunk(XMP,even)", func(m *mux.Muxer, md *mModel) error {
-			if err := m.AddChunk(mux.FourCCXMP, []byte{4, 4}); err != nil {
+			if err := m.AddChunk(mux.FourCCXMP, chunkEven); err != nil {
 				return err
 			}
 			md.xmp = []byte{4, 4}
@@ -234,7 +256,37 @@ func c14Build() ([]c14Op, []c14Frame) {
 			return nil
 		}})
 	}
+	// lay the caller's buffer out: blob, blob, ..., guard
+	total := 16
+	for _, p := range place {
+		total += len(*p)
+	}
+	c14Arena = make([]byte, 0, total)
+	for _, p := range place {
+		off := len(c14Arena)
+		c14Arena = append(c14Arena, *p...)
+		*p = c14Arena[off:len(c14Arena):total] // spare capacity reaches over everything behind it
+	}
+	for len(c14Arena) < total {
+		c14Arena = append(c14Arena, 0xA5)
+	}
+	c14ArenaOrig = append([]byte(nil), c14Arena...)
 	return ops, frames
+}
+
+// c14CallerMemory reports (and repairs, so that one history cannot poison the next) any
+// change to the buffer the muxer's inputs were sliced from.
+func c14CallerMemory() string {
+	if bytes.Equal(c14Arena, c14ArenaOrig) {
+		return ""
+	}
+	at := 0
+	for at < len(c14Arena) && c14Arena[at] == c14ArenaOrig[at] {
+		at++
+	}
+	v := fmt.Sprintf("the muxer wrote into the caller's memory: byte %d of the buffer its inputs were sliced from changed from %#02x to %#02x (inputs are kept by reference; the bytes behind a slice's length belong to the caller)", at, c14ArenaOrig[at], c14Arena[at])
+	copy(c14Arena, c14ArenaOrig)
+	return v
 }
 
 type c14Sys struct{}
@@ -264,7 +316,11 @@ func (c14Sys) Exec(h []int) (st bfs.Step) {
 			_ = k
 		}
 	}
-	if v := c14Check(m, md); v != "" {
+	v := c14Check(m, md)
+	if mv := c14CallerMemory(); mv != "" && v == "" {
+		v = mv
+	}
+	if v != "" {
 		return bfs.Step{Violation: v}
 	}
 	hs := bfs.NewHasher()
